@@ -182,3 +182,15 @@ def const_str(expr, tree):
         v = pyeval.evaluate(expr, module_str_env(tree))
         return v if isinstance(v, str) else None
     except AnalysisError: return None
+
+def full_match_guard(atoms):
+    """do the path conditions (canonical atoms with polarity) include a test that the identifier regex matched the whole text?
+    forms: m.span() == (0, len(s)), m.end() == len(s), m.group() == s, r.fullmatch(s) [is not None]"""
+    for a, pol in atoms:
+        g = a.replace(" ", "")
+        if pol and (("span()==(0,len(" in g) or ("end()==len(" in g) or ("group()==" in g)): return True
+        if "fullmatch(" in g:
+            if g.endswith("isNone"):
+                if not pol: return True
+            elif pol: return True
+    return False
